@@ -2,7 +2,8 @@
 C14 — One bad file never aborts tagging or collecting.
 
 Property theorems only, about the exception-flow skeleton `Paroxy.Collect.collect` / `tagMain`
-(Model/Collect.lean) for ALL behaviours of the externals (`clean`, `parse`, `features`), all
+(Model/Collect.lean) for ALL behaviours of `clean`, for the behaviours of `parse` / `features` allowed
+by the explicit hypotheses `ParseCaught` / `FeaturesTotal` (which assume what the code relies on), all
 directories and all taxonomies. What CPython's tokenizer and parser actually raise on a given text is
 outside the model: the harness records it and the model predicts abort vs record.
 
@@ -11,6 +12,8 @@ statement `C14_every_file_reported` is a theorem: no hypothesis on `clean` at al
 -/
 import Paroxy.Proofs.Collect
 import Paroxy.Props.C11
+import Paroxy.Props.C09
+import Paroxy.Proofs.MetaAstRow
 namespace Paroxy.Props.C14
 open Paroxy Paroxy.DB Paroxy.Collect
 
@@ -148,6 +151,56 @@ theorem C14_others_unaffected {db db' : Db} {b : Name}
   unfold recordOf
   rw [hlab]
 
+/-- **C14 (what changes for an importer of the removed file).** The proviso `NotImporting` of
+`C14_others_unaffected` is not decoration: a label `n` of another program that names the module of `b`
+(`searchImport? n = some m`, `m` as a path `= b`) is relabelled `import_internally:…` (every `.` a `/`)
+while `b` is collected, and is left as it is (`import:…`) once `b` is removed — hence, through the
+taxonomy, `import/personal` vs `import/third_party/…`, and through `C11_importations`,
+`importations` with vs without `b`. The property text has no such proviso: this is the recorded
+finding F38 (notes/findings/C14-importer-of-bad-file.md), reported by the harness under a narrow signature. -/
+theorem C14_importer_relabel {paths : List Name} {b n m : Name} (hb : b ∈ paths) (hne : b ≠ sPy)
+    (hs : searchImport? n = some m) (hm : replaceChar cDot cSlash m ++ sPy = b) :
+    relabelName (internalPaths paths) n = replaceChar cDot cSlash (tweakFirstColon n) ∧
+    relabelName (internalPaths (paths.filter fun p => decide (p ≠ b))) n = n := by
+  unfold relabelName
+  rw [hs]
+  simp only
+  constructor
+  · rw [if_pos]
+    rw [hm]; exact mem_internalPaths.mpr (Or.inl hb)
+  · rw [if_neg]
+    rw [hm, mem_internalPaths]
+    rintro (h | h)
+    · have := (List.mem_filter.mp h).2
+      simp at this
+    · exact hne h
+
+/-- Non-vacuity of `C14_others_unaffected`: two files (both cleaned by a raising tokenizer, both parsed
+to an empty module); removing `b.py` leaves the record of `a.py` unchanged. Both collections succeed and
+`NotImporting` holds (the only label of `a.py` is `ast_construction:EmptyProgramError`). -/
+example : ∃ db db', collect badExt (fun _ _ => []) [(exPath, []), ([98, 46, 112, 121], [])] = .ok db ∧
+    collect badExt (fun _ _ => [])
+      ([(exPath, []), ([98, 46, 112, 121], [])].filter fun f => decide (f.1 ≠ [98, 46, 112, 121])) = .ok db' ∧
+    get? db'.programs exPath = get? db.programs exPath := by
+  have hp : ParseCaught badExt := fun src e he => by simp [badExt] at he
+  have hf : FeaturesTotal badExt := fun src t => ⟨[], rfl⟩
+  obtain ⟨db, h, -⟩ := C14_every_file_reported (toTaxa := fun _ _ => []) hp hf
+    (files := [(exPath, []), ([98, 46, 112, 121], [])]) (by decide)
+  obtain ⟨db', h', -⟩ := C14_every_file_reported (toTaxa := fun _ _ => []) hp hf
+    (files := [(exPath, []), ([98, 46, 112, 121], [])].filter fun f => decide (f.1 ≠ [98, 46, 112, 121]))
+    (by decide)
+  refine ⟨db, db', h, h', ?_⟩
+  apply C14_others_unaffected h h' (by decide) (exPath, []) (by simp) (by decide)
+  intro l hl m hs
+  have : labelsD badExt (srcOf badExt (exPath, [])) = [emptyLabel (srcOf badExt (exPath, []))] := by
+    simp [labelsD, parseProgram, badExt]
+  rw [this, List.mem_singleton] at hl
+  rw [hl] at hs
+  have hnone : searchImport? (emptyLabel (srcOf badExt (exPath, []))).name = none := by
+    simp only [emptyLabel, astLabel]
+    exact searchImport?_ast sEmpty_noColon
+  rw [hnone] at hs; cases hs
+
 /-- **C14 (the closure terminates).** `complete_and_collect_importations` is a total function of the
 dictionary of direct importations — accepted by Lean through the termination measure
 (unvisited keys, stack length) of `closureLoop`, for every graph (cycles, self-imports, dangling
@@ -186,5 +239,73 @@ theorem C14_tag_reports (hp : ParseCaught X) (hf : FeaturesTotal X) (src : Name)
   · intro t ht hemp
     unfold tagMain
     rw [parseProgram_empty ht hemp]
+
+/-- Non-vacuity of `C14_tag_reports`: externals whose parser only raises `SyntaxError` (a caught class)
+satisfy the hypotheses, and `tag` then reports the single label `ast_construction:SyntaxError`. -/
+def syntaxErrorExt : Ext Unit :=
+  { clean := fun s => .ok s, prepare := id,
+    parse := fun _ => .error { name := [83, 121, 110, 116, 97, 120, 69, 114, 114, 111, 114], caught := true },
+    isEmpty := fun _ => false, features := fun _ _ => .ok [] }
+
+example : tagMain syntaxErrorExt (fun _ ls => [{ name := [109], spans := (ls.flatMap (·.spans)) }]) [120, 10] =
+    .ok ([astLabel [83, 121, 110, 116, 97, 120, 69, 114, 114, 111, 114] [120, 10]],
+         [{ name := [109], spans := [(1, 2, [])] }]) := by
+  have h := (C14_tag_reports (X := syntaxErrorExt)
+    (toTaxa := fun _ ls => [{ name := [109], spans := (ls.flatMap (·.spans)) }])
+    (fun src e he => by
+      simp only [syntaxErrorExt, Except.error.injEq] at he
+      rw [← he]; exact ⟨rfl, by decide⟩)
+    (fun src t => ⟨[], rfl⟩) [120, 10]).2.1 _ rfl
+  rw [h]
+  rfl
+
+/-! ### The taxon clause, with the real table (`Gen.TaxonomyCodes` is regenerated from taxonomy.tsv) -/
+
+section MetaAst
+open Paroxy.Taxo Paroxy.Spec.Taxo Paroxy.MetaAst
+
+/-- **C14 (single taxon `meta/ast/<ErrorName>`), on the default taxonomy.** Let `rows` be the default
+table as `Taxonomy.__init__` reads it. Under oracle agreement on that row — the regex engine says that
+`ast_construction:(.+)` matches the label `ast_construction:<E>` entirely and expands `meta/ast/\1` to
+`meta/ast/<E>`; the label does not "look like a taxon"; no OTHER row applies to it (three facts about
+the `regex` engine, evaluated with the real engine by the harness for every error name met) — the
+translation of the single label of an invalid (or empty) program is exactly the taxon `meta/ast/<E>`,
+in every state of the taxonomy instance (`C09_same_on_every_call`). The membership of the row in the
+table is NOT a hypothesis: it is `astLine_in_default_table`. -/
+theorem C14_meta_ast (o : Oracle) (rows : List Row) (E : Str)
+    (hrows : parseTsv defaultText = .ok rows)
+    (hlooks : o.looks (astPrefix ++ E) = false)
+    (hfull : o.full astRow (astPrefix ++ E) = some (metaAstPrefix ++ E))
+    (hothers : ∀ r ∈ rows, r ≠ astRow → rowResult o r (astPrefix ++ E) = none) :
+    astRow ∈ rows ∧ ∀ x, x ∈ translate o rows (astPrefix ++ E) ↔ x = metaAstPrefix ++ E := by
+  have hmem : astRow ∈ rows := by
+    unfold parseTsv Taxo.parseAll at hrows
+    split at hrows
+    · simp only [Except.ok.injEq] at hrows
+      rw [← hrows, ← astRow_of_line.1]
+      apply List.mem_map_of_mem
+      have h1 : astLine ∈ rawLines defaultText := by
+        have := astLine_in_default_table
+        simpa using this
+      exact (List.mergeSort_perm _ _).mem_iff.mpr h1
+    · cases hrows
+  refine ⟨hmem, fun x => ?_⟩
+  rw [C09.C09_exact]
+  have hrow : rowResult o astRow (astPrefix ++ E) = some (metaAstPrefix ++ E) := by
+    unfold rowResult
+    rw [astRow_of_line.2]
+    simpa using hfull
+  constructor
+  · rintro (⟨hl, -⟩ | ⟨-, r, hr, hres⟩)
+    · rw [hlooks] at hl; cases hl
+    · by_cases hra : r = astRow
+      · rw [hra, hrow] at hres
+        simp only [Option.some.injEq] at hres
+        exact hres.symm
+      · rw [hothers r hr hra] at hres; cases hres
+  · intro hx
+    exact Or.inr ⟨hlooks, astRow, hmem, by rw [hrow, hx]⟩
+
+end MetaAst
 
 end Paroxy.Props.C14
